@@ -113,6 +113,12 @@ end
 def TokenObject (ms : List (List StrItem × CST)) (txt : Bytes) : Prop :=
   ∃ k items, ms = [(k, .str items)] ∧ isTokenKey k = true ∧ decodeItems items = some txt ∧ IsNumber txt
 
+/-- what has to follow a first key that decodes to the token for the object to be accepted: `ws : ws string ws }` where
+    the string literal decodes to the number literal `txt`; `rest'` is what follows the closing brace -/
+def TokenTail (rest txt rest' : Bytes) : Prop :=
+  ∃ w₁ w₂ items w₃, rest = w₁ ++ [0x3a] ++ w₂ ++ strBytes items ++ w₃ ++ [0x7d] ++ rest' ∧ Ws w₁ ∧ Ws w₂ ∧ Ws w₃ ∧
+    StrWF items = true ∧ decodeItems items = some txt ∧ IsNumber txt
+
 mutual
 /-- every object whose first key decodes to the token is a `TokenObject` -/
 def TokenShaped : CST → Prop
